@@ -288,3 +288,90 @@ fn __verif_n_c17_statement_ranges() {
         Some((input, why)) => println!("VERIF-N id=N/n_c17_casm_paths/statement_ranges status=fail key=\"{}\" input=\"{input}\" detail=\"{}: {}\" bound=\"{bound}\"", why.replace('"', "'"), input.rsplit('/').next().unwrap_or(""), why.replace('"', "'")),
     }
 }
+
+#[path = "../shared/stmt_walk.rs"]
+mod stmt_walk;
+
+/// Per-statement form of the first sentence of C17, independent of the ap-change solver: for every
+/// invocation statement of every compiled corpus program whose libfunc declares
+/// `ApChange::Known(k)` for a branch (core_libfunc_ap_change.rs), every path through the
+/// instructions emitted for the statement that leaves through that branch moves ap by exactly k.
+/// Covers the statements of functions whose own ap change is Unknown (loops, recursion), which the
+/// function-level path sum above cannot say anything about.
+#[test]
+fn __verif_n_c17_stmt_ap() {
+    use cairo_lang_sierra::extensions::core::CoreConcreteLibfunc;
+    use cairo_lang_sierra::extensions::gas::CostTokenType;
+    use cairo_lang_sierra::ids::ConcreteTypeId;
+    use cairo_lang_sierra::program::{BranchTarget, Statement, StatementIdx};
+    use cairo_lang_sierra_ap_change::core_libfunc_ap_change::{core_libfunc_ap_change, InvocationApChangeInfoProvider};
+    use cairo_lang_sierra_ap_change::ApChange;
+    struct Provider<'a> { info: &'a ProgramRegistryInfo, md: &'a crate::metadata::Metadata, idx: StatementIdx }
+    impl InvocationApChangeInfoProvider for Provider<'_> {
+        fn type_size(&self, ty: &ConcreteTypeId) -> usize { self.info.type_sizes[ty] as usize }
+        fn token_usages(&self, token_type: CostTokenType) -> usize { self.md.gas_info.variable_values.get(&(self.idx, token_type)).copied().unwrap_or(0).max(0) as usize }
+    }
+    std::panic::set_hook(Box::new(|_| {}));
+    let files = corpus();
+    let mut inputs: Vec<(String, String)> = files.iter().filter_map(|f| std::fs::read_to_string(f).ok().map(|s| (f.display().to_string(), s))).collect();
+    inputs.extend(e2e_corpus::e2e_programs(env!("CARGO_MANIFEST_DIR")));
+    let (mut programs, mut nst, mut ncmp) = (0u64, 0u64, 0u64);
+    let mut fails: Vec<(String, String)> = vec![];
+    for (name, src) in inputs {
+        let h = std::thread::Builder::new().stack_size(128 << 20).spawn(move || catch_unwind(AssertUnwindSafe(|| -> Option<(u64, u64, Option<String>)> {
+            let program = ProgramParser::new().parse(&src).ok()?;
+            let info = ProgramRegistryInfo::new(&program).ok()?;
+            let (md, gas) = match calc_metadata(&program, &info, Default::default()) { Ok(m) => (m, true), Err(_) => (crate::metadata::calc_metadata_ap_change_only(&program, &info).ok()?, false) };
+            let casm = compile(&program, &info, &md, SierraToCasmConfig { gas_usage_check: gas, max_bytecode_size: usize::MAX }).ok()?;
+            let at = stmt_walk::offsets(&casm);
+            let stmts = &casm.debug_info.sierra_statement_info;
+            let (mut nst, mut ncmp) = (0u64, 0u64);
+            for (i, st) in program.statements.iter().enumerate() {
+                let Statement::Invocation(inv) = st else { continue };
+                let Ok(lf) = info.registry.get_libfunc(&inv.libfunc_id) else { continue };
+                if matches!(lf, CoreConcreteLibfunc::FunctionCall(_) | CoreConcreteLibfunc::CouponCall(_) | CoreConcreteLibfunc::DummyFunctionCall(_)) { continue; }
+                let (start, end) = (stmts[i].start_offset, stmts[i].end_offset);
+                let provider = Provider { info: &info, md: &md, idx: StatementIdx(i) };
+                let Ok(declared) = catch_unwind(AssertUnwindSafe(|| core_libfunc_ap_change(lf, &provider))) else { continue };
+                if declared.len() != inv.branches.len() { continue; }
+                // exit offset -> declared Known change (None when ambiguous or not Known)
+                let mut exit_k: HashMap<usize, Option<i64>> = HashMap::new();
+                for (b, br) in inv.branches.iter().enumerate() {
+                    let t = match br.target { BranchTarget::Fallthrough => i + 1, BranchTarget::Statement(t) => t.0 };
+                    let off = if matches!(br.target, BranchTarget::Fallthrough) || t == i + 1 { end } else if t < stmts.len() { stmts[t].start_offset } else { continue };
+                    let k = match &declared[b] { ApChange::Known(k) => Some(*k as i64), _ => None };
+                    match exit_k.get(&off) { Some(prev) if *prev != k => { exit_k.insert(off, None); } Some(_) => {} None => { exit_k.insert(off, k); } }
+                }
+                if start == end {
+                    // no code: every Known branch must declare 0
+                    for (b, d) in declared.iter().enumerate() { if let ApChange::Known(k) = d { ncmp += 1; if *k != 0 { return Some((nst, ncmp, Some(format!("statement #{i} `{}`: branch {b} declares ap change {k} but no instruction is emitted for the statement", st.to_string().chars().take(90).collect::<String>())))); } } }
+                    nst += 1;
+                    continue;
+                }
+                let Some(paths) = stmt_walk::walk(&casm, &at, start, end) else { continue };
+                nst += 1;
+                for (exit, _, ap) in &paths {
+                    if let Some(Some(k)) = exit_k.get(exit) {
+                        ncmp += 1;
+                        if ap != k { return Some((nst, ncmp, Some(format!("statement #{i} `{}`: the table declares ap change {k} for the branch leaving at offset {exit}, a path of the emitted code moves ap by {ap}", st.to_string().chars().take(90).collect::<String>())))); }
+                    }
+                }
+            }
+            Some((nst, ncmp, None))
+        }))).unwrap();
+        match h.join() {
+            Ok(Ok(Some((n, c, None)))) => { programs += 1; nst += n; ncmp += c; }
+            Ok(Ok(Some((n, c, Some(w))))) => { programs += 1; nst += n; ncmp += c; fails.push((name, w)); }
+            _ => {}
+        }
+    }
+    let bound = format!("{programs} compiled Sierra programs (file corpus + e2e test files), {nst} invocation statements, {ncmp} (exit, path) comparisons");
+    for (input, why) in &fails {
+        let short = input.rsplit('/').next().unwrap_or(input);
+        println!("VERIF-N id=N/n_c17_casm_paths/stmt_ap_declared_vs_emitted:{short} status=fail key=\"{}\" input=\"{input}\" detail=\"{short}: {}\" bound=\"{bound}\"", why.replace('"', "'").chars().take(100).collect::<String>(), why.replace('"', "'"));
+    }
+    if fails.is_empty() {
+        if ncmp == 0 { println!("VERIF-N id=N/n_c17_casm_paths/stmt_ap_declared_vs_emitted status=unknown"); }
+        else { println!("VERIF-N id=N/n_c17_casm_paths/stmt_ap_declared_vs_emitted status=ok cases={ncmp} distinct={nst} bound=\"{bound}\""); }
+    }
+}
